@@ -12,6 +12,7 @@ import FractopoModel.Props.C12
 import FractopoModel.Props.C13
 import FractopoModel.Props.C14
 import FractopoModel.Props.C15
+import FractopoModel.Props.C16
 import FractopoModel.Props.C17
 import FractopoModel.Props.C18
 import FractopoModel.Props.C20
